@@ -3,6 +3,7 @@ package rules
 import (
 	"fmt"
 	"go/token"
+	"go/types"
 	"strings"
 
 	"golang.org/x/tools/go/ssa"
@@ -91,9 +92,6 @@ func c18(c *core.Ctx) {
 	// ---------------------------------------------------------------- R2
 	if c.Rule("R2", "refusals are errors: a value that is not a protobuf message, mismatched types and unsettable destinations lead to non-nil errors, never to a shallow copy", 5) {
 		for _, fn := range append(p.LibFuncs("internal"), p.LibFuncs("inprocgrpc")...) {
-			if !strings.HasSuffix(p.Fset.Position(fn.Pos()).Filename, "misc.go") && !strings.HasSuffix(p.Fset.Position(fn.Pos()).Filename, "cloner.go") {
-				continue
-			}
 			// comma-ok assertions to proto.Message whose result is used as a gate
 			core.Instrs(fn, func(in ssa.Instruction) {
 				ta, ok := in.(*ssa.TypeAssert)
@@ -190,7 +188,7 @@ func c18(c *core.Ctx) {
 			c.Missing("default message clone in internal")
 		}
 		for _, fn := range p.LibFuncs("inprocgrpc") {
-			if !strings.HasSuffix(p.Fset.Position(fn.Pos()).Filename, "cloner.go") {
+			if !isClonerCode(fn) {
 				continue
 			}
 			key := core.FuncName(fn)
@@ -231,10 +229,11 @@ func c18(c *core.Ctx) {
 					}
 				}
 			})
-			if marshal != nil && unmarshal != nil && len(fn.Params) == 2 {
-				okRT := marshal.Call.Args[0] == ssa.Value(fn.Params[1]) &&
+			outPar, inPar, copyTail := copyTailParams(fn)
+			if marshal != nil && unmarshal != nil && copyTail {
+				okRT := marshal.Call.Args[0] == ssa.Value(inPar) &&
 					core.OriginIs(unmarshal.Call.Args[0], func(o ssa.Value) bool { cr, idx, ok := core.CallResult(o); return ok && cr == marshal && idx == 0 }) &&
-					unmarshal.Call.Args[1] == ssa.Value(fn.Params[0])
+					unmarshal.Call.Args[1] == ssa.Value(outPar)
 				c.Check(okRT, key+":codec-round-trip", marshal.Pos(), "Unmarshal(Marshal(in), out) with the very bytes marshalled", "the codec adapter does not unmarshal the bytes it marshalled from the source into the destination")
 				// success only after the decode ran (it is what replaces the destination's content)
 				okDec := true
@@ -260,7 +259,8 @@ func c18(c *core.Ctx) {
 			}
 			// Clone-from-copy: reflect.New(TypeOf(in).Elem())
 			for _, nw := range core.CallsIn(fn, func(_ *ssa.Call, ci core.CallInfo) bool { return ci.Is("reflect.New") }) {
-				if len(fn.Params) != 1 {
+				srcPar, cloneTail := cloneTailParam(fn)
+				if !cloneTail {
 					continue // the single-response probe's scratch value etc.
 				}
 				okNew := core.OriginIs(nw.Call.Args[0], func(o ssa.Value) bool {
@@ -270,7 +270,7 @@ func c18(c *core.Ctx) {
 					}
 					return core.OriginIs(el.Call.Value, func(o2 ssa.Value) bool {
 						cr, _, ok := core.CallResult(o2)
-						return ok && core.InfoOf(&cr.Call).Is("reflect.TypeOf") && core.Strip(cr.Call.Args[0]) == ssa.Value(fn.Params[0])
+						return ok && core.InfoOf(&cr.Call).Is("reflect.TypeOf") && core.Strip(cr.Call.Args[0]) == ssa.Value(srcPar)
 					})
 				})
 				c.Check(okNew, key+":fresh-destination", nw.Pos(), "the clone is a fresh reflect.New(TypeOf(in).Elem())", "the clone is not a fresh value of the source's element type")
@@ -279,13 +279,13 @@ func c18(c *core.Ctx) {
 				for _, dc := range core.CallsIn(fn, func(call *ssa.Call, ci core.CallInfo) bool { return ci.Dyn && len(call.Call.Args) == 2 }) {
 					userCall = dc
 				}
-				okUse := userCall != nil && userCall.Call.Args[1] == ssa.Value(fn.Params[0]) && reflectDerives(userCall.Call.Args[0], nw)
+				okUse := userCall != nil && userCall.Call.Args[1] == ssa.Value(srcPar) && reflectDerives(userCall.Call.Args[0], nw)
 				okRet := false
 				for _, r := range core.Returns(fn) {
 					if reflectDerives(r.Results[0], nw) {
 						okRet = true
 					}
-					if r.Results[0] == ssa.Value(fn.Params[0]) {
+					if r.Results[0] == ssa.Value(srcPar) {
 						okUse = false
 					}
 				}
@@ -293,7 +293,7 @@ func c18(c *core.Ctx) {
 			}
 			// Copy-from-clone: dest.Set(src) with src derived from the clone function's result
 			for _, set := range core.CallsIn(fn, func(_ *ssa.Call, ci core.CallInfo) bool { return ci.Is("reflect.Value.Set") }) {
-				if len(fn.Params) != 2 {
+				if !copyTail {
 					continue
 				}
 				var userClone *ssa.Call
@@ -302,11 +302,11 @@ func c18(c *core.Ctx) {
 				}
 				src := set.Call.Args[1]
 				fromClone := userClone != nil && reflectDerivesFromCallResult(src, userClone)
-				fromIn := reflectDerives(src, fn.Params[1])
+				fromIn := reflectDerives(src, inPar)
 				c.Check(fromClone && !fromIn, key+":assigns-the-clone", set.Pos(), "the value assigned to the destination derives from the clone function's result, not from the source parameter", "the destination is assigned the source's own value (a shallow copy sharing all nested memory) instead of the clone's")
-				okDest := reflectDerives(set.Call.Args[0], fn.Params[0])
+				okDest := reflectDerives(set.Call.Args[0], outPar)
 				c.Check(okDest, key+":assigns-into-out", set.Pos(), "the assignment goes into the 'out' parameter", "the reflective assignment does not go into the destination parameter")
-				c.Check(userClone != nil && userClone.Call.Args[0] == ssa.Value(fn.Params[1]), key+":clones-the-source", set.Pos(), "the clone function is applied to the source parameter", "the clone function is not applied to the source")
+				c.Check(userClone != nil && userClone.Call.Args[0] == ssa.Value(inPar), key+":clones-the-source", set.Pos(), "the clone function is applied to the source parameter", "the clone function is not applied to the source")
 			}
 		}
 		c.EndRule()
@@ -331,16 +331,13 @@ func c18(c *core.Ctx) {
 	// ---------------------------------------------------------------- R4
 	if c.Rule("R4", "the source is only read: no adapter stores through its 'in' parameter or reflect-sets a value derived from it", 4) {
 		for _, fn := range append(p.LibFuncs("inprocgrpc"), p.LibFuncs("internal")...) {
-			f := p.Fset.Position(fn.Pos()).Filename
-			if !strings.HasSuffix(f, "cloner.go") && !(strings.HasSuffix(f, "misc.go") && (fn == copyMsg || fn == cloneMsg)) {
+			if !isClonerCode(fn) && fn != copyMsg && fn != cloneMsg {
 				continue
 			}
-			// the source parameter: named in, or the last interface{} parameter
+			// the source parameter: by position — the last parameter of a func(out, in) error / func(in) (interface{}, error)
 			var inPar *ssa.Parameter
-			for _, pp := range fn.Params {
-				if pp.Name() == "in" || pp.Name() == "m" {
-					inPar = pp
-				}
+			if copyShape(fn.Signature) || cloneShape(fn.Signature) {
+				inPar = fn.Params[len(fn.Params)-1]
 			}
 			if inPar == nil {
 				continue
@@ -395,4 +392,68 @@ func reflectDerivesFromCallResult(v ssa.Value, call *ssa.Call) bool {
 		return false
 	}
 	return rec(v)
+}
+
+func cloneShape(sig *types.Signature) bool {
+	return sig != nil && sig.Params().Len() == 1 && sig.Results().Len() == 2 && isAnyType(sig.Params().At(0).Type()) &&
+		isAnyType(sig.Results().At(0).Type()) && core.IsErrorType(sig.Results().At(1).Type())
+}
+
+// isClonerCode: the function (or the function a literal is nested in) is part
+// of the message-copy strategies of the in-process package: it has the copy or
+// the clone shape, or it builds a Cloner.
+func isClonerCode(fn *ssa.Function) bool {
+	for f := fn; f != nil; f = f.Parent() {
+		sig := f.Signature
+		if copyShape(sig) || cloneShape(sig) {
+			return true
+		}
+		if sig.Results().Len() == 1 && core.NamedOf(sig.Results().At(0).Type()) == "Cloner" {
+			return true
+		}
+		// plain helper functions whose parameters end in the (out, in) / (in) pair of empty interfaces
+		n := sig.Params().Len()
+		if f.Parent() == nil && sig.Recv() == nil && n >= 2 && isAnyType(sig.Params().At(n-1).Type()) && sig.Results().Len() >= 1 &&
+			core.IsErrorType(sig.Results().At(sig.Results().Len()-1).Type()) {
+			for i := 0; i < n-1; i++ {
+				if _, isFn := sig.Params().At(i).Type().Underlying().(*types.Signature); isFn {
+					return true
+				}
+				if core.NamedOf(sig.Params().At(i).Type()) == "Codec" {
+					return true
+				}
+			}
+		}
+	}
+	return false
+}
+
+// copyTailParams: the function's last two parameters are the (out, in) pair of
+// a copy (both empty interfaces) and it returns an error.
+func copyTailParams(fn *ssa.Function) (out, in *ssa.Parameter, ok bool) {
+	n := len(fn.Params)
+	sig := fn.Signature
+	if n < 2 || sig.Results().Len() != 1 || !core.IsErrorType(sig.Results().At(0).Type()) {
+		return nil, nil, false
+	}
+	if !isAnyType(fn.Params[n-1].Type()) || !isAnyType(fn.Params[n-2].Type()) {
+		return nil, nil, false
+	}
+	return fn.Params[n-2], fn.Params[n-1], true
+}
+
+// cloneTailParam: the last parameter is the source of a clone: func(..., in) (interface{}, error).
+func cloneTailParam(fn *ssa.Function) (*ssa.Parameter, bool) {
+	n := len(fn.Params)
+	sig := fn.Signature
+	if n < 1 || sig.Results().Len() != 2 || !isAnyType(sig.Results().At(0).Type()) || !core.IsErrorType(sig.Results().At(1).Type()) {
+		return nil, false
+	}
+	if !isAnyType(fn.Params[n-1].Type()) {
+		return nil, false
+	}
+	if n >= 2 && isAnyType(fn.Params[n-2].Type()) {
+		return nil, false
+	}
+	return fn.Params[n-1], true
 }
